@@ -577,6 +577,9 @@ fn shape_batches<P: G>(cfg: Cfg) -> Box<dyn Case> {
         if cfg.d > 1 {
             kinds.push(("degree-1", 4, 0));
         }
+        if cfg.big_n() <= 64 {
+            kinds.push(("honest-other-size", 5, 0));
+        }
         let mut members: Vec<Vec<(RangeStatement<P>, tari_bulletproofs_plus::range_proof::RangeProof<P>, bool)>> = Vec::new();
         for pos in 0..2usize {
             let mut row = Vec::new();
@@ -591,6 +594,23 @@ fn shape_batches<P: G>(cfg: Cfg) -> Box<dyn Case> {
             let rp = ref_proof_of(&proof).unwrap();
             let rst = ref_statement(&built.statement);
             for (_, sign, k) in &kinds {
+                if *sign == 5 {
+                    // an honest member of ANOTHER aggregation size (valid by the reference relation of its own statement)
+                    let m2 = if cfg.m == 1 { 2 } else { 1 };
+                    let cfg2 = Cfg::new(cfg.n, m2, cfg.c.max(m2), cfg.d);
+                    let w2 = Wit::default_for(&cfg2);
+                    let b2 = build_cached::<P>(&cfg2, &w2).honest();
+                    let p2 = lib_prove_honest(&b2, &CTX_A, &mut HRng::chacha(90 + pos as u64));
+                    let ok = match ref_proof_of(&p2) {
+                        Some(q2) => {
+                            let mut t = CTX_A.transcript();
+                            refbp::ref_verify(&mut t, &ref_statement(&b2.statement), &q2).verdict.accepts()
+                        },
+                        None => true,
+                    };
+                    row.push((b2.statement.clone(), p2, ok));
+                    continue;
+                }
                 let mut q = rp.clone();
                 match sign {
                     1 => q.d1[*k] += delta,
@@ -771,7 +791,7 @@ fn shape_long_batch<P: G>(len: usize) -> Box<dyn Case> {
 pub fn run(rep: &mut Report) {
     rep.rule = "configuration lattice x proof shapes {honest, every single mutation of the wire form, generic (symbolic) proofs x \
                 response-scalar alphabet x promise alphabet, dishonest-witness proofs from the reference prover (v-p in {-1,2^n,2^n+1}, \
-                one non-bit digit at each position), wrong round counts / degrees, batches of 257 / 513 with one false member at 0, 100, 255, 256 and last, 2-member batches over {honest, d1[k]+/-delta (cancel under equal weights), r1+1, re-encoded under degree+/-1}^2} x environment deviations {zero challenge at each \
+                one non-bit digit at each position), wrong round counts / degrees, batches of 257 / 513 with one false member at 0, 100, 255, 256 and last, 2-member batches over {honest, d1[k]+/-delta (cancel under equal weights), r1+1, re-encoded under degree+/-1, an honest member of another aggregation size}^2} x environment deviations {zero challenge at each \
                 draw, identity at each commitment generator}; oracle = verdict equality with the reference relation and (over F) \
                 equality of the compared element with weight x reference linear form as a coefficient vector"
         .into();
